@@ -104,6 +104,9 @@ func SchemaFor(c Case) (string, bool) {
 
 // want: reference verdict; judged=false for the unspecified d.000 zone.
 func want(c Case) (accept, judged bool) {
+	if neg, zero, expNeg, huge := num.HugeExp(c.N); huge {
+		return wantHuge(c, neg, zero, expNeg)
+	}
 	n, ok := ref.ParseDecimal(c.N)
 	if !ok {
 		panic("harness bug: N is not a numeral: " + c.N)
@@ -148,6 +151,49 @@ func want(c Case) (accept, judged bool) {
 	panic("unknown rule")
 }
 
+// wantHuge: the document numeral has an exponent beyond +-100000 and a mantissa of a few digits, the
+// rule parameter is a plain numeral of at most a few dozen digits: the value is zero, or further
+// from zero than every parameter (positive exponent), or closer to zero than every non-zero
+// parameter (negative exponent) - no expansion is needed to compare.
+func wantHuge(c Case, neg, zero, expNeg bool) (accept, judged bool) {
+	if zero {
+		return false, false // 0e<huge>: zero, the zero-mantissa spelling is judged by the other families
+	}
+	sign := 1 // sign of the document value
+	if neg {
+		sign = -1
+	}
+	switch c.Rule {
+	case "integer", "ap-integer":
+		return !expNeg, true
+	case "precision":
+		return !expNeg, true // more fraction digits than any p <= 40, or none at all
+	}
+	m, _ := ref.ParseDecimal(c.M)
+	// cmp: sign of (document value - parameter)
+	cmp := sign
+	if expNeg {
+		// |value| is below every non-zero parameter's magnitude
+		switch {
+		case m.IsZero():
+			cmp = sign
+		case m.Neg:
+			cmp = 1
+		default:
+			cmp = -1
+		}
+	}
+	switch c.Rule {
+	case "min", "xmin":
+		return cmp > 0, true
+	case "max", "xmax":
+		return cmp < 0, true
+	case "enum", "const":
+		return false, true // never equal to a plain numeral of a few digits
+	}
+	panic("unknown rule")
+}
+
 type schemaCache map[string]*js.Schema
 
 func check(t run.TB, c Case, cache schemaCache) (judged, accepted bool) {
@@ -188,6 +234,9 @@ func check(t run.TB, c Case, cache schemaCache) (judged, accepted bool) {
 	}
 	if r.OK != w {
 		if !r.OK && w && num.ZeroMantissaExp(c.N) && run.MatchKnown("C10-zero-mantissa-exponent") {
+			return false, false
+		}
+		if _, _, _, huge := num.HugeExp(c.N); huge && !r.OK && w && run.MatchKnown("C10-exponent-beyond-100000-rejected") {
 			return false, false
 		}
 		if !r.OK && w && (c.Rule == "enum" || c.Rule == "const") && c.N != c.M && run.MatchKnown("C10-enum-const-raw-number-compare") {
@@ -337,6 +386,37 @@ func TestRandomPairs(t *testing.T) {
 					run.Label("rejected")
 				}
 			}
+		}
+	})
+}
+
+// TestHugeExponents: document numerals whose exponent lies beyond +-100000, in particular around
+// the powers of two at which a fixed-width exponent wraps.
+func TestHugeExponents(t *testing.T) {
+	run.SkipIfReplaying(t)
+	defer run.Done(t, chk)
+	rapid.Check(t, func(t *rapid.T) {
+		m := num.Random(t, rapid.SampledFrom([]int{1, 3, 20}).Draw(t, "maxDigits"), 0, false, "m")
+		rule := rapid.SampledFrom([]string{"min", "max", "xmin", "xmax", "enum", "const", "integer", "precision", "ap-integer"}).Draw(t, "rule")
+		if rule == "precision" {
+			m = fmt.Sprint(rapid.IntRange(1, 40).Draw(t, "p"))
+		}
+		base := rapid.SampledFrom([]string{"100001", "4294967296", "9223372036854775808", "18446744073709551616", "36893488147419103232",
+			"340282366920938463463374607431768211456", "100000000000000000000"}).Draw(t, "base")
+		e := new(big.Int)
+		e.SetString(base, 10)
+		e.Add(e, big.NewInt(int64(rapid.IntRange(-3, 400).Draw(t, "delta"))))
+		if e.Cmp(big.NewInt(100000)) <= 0 {
+			e.SetInt64(100001)
+		}
+		mant := num.Random(t, rapid.SampledFrom([]int{1, 2, 6}).Draw(t, "nDigits"), 0, false, "n")
+		n := mant + rapid.SampledFrom([]string{"e", "E", "e+", "E-", "e-", "e-"}).Draw(t, "eSpelling") + rapid.SampledFrom([]string{"", "", "0", "000"}).Draw(t, "eZeros") + e.String()
+		c := Case{Rule: rule, M: m, N: n}
+		j, acc := check(t, c, schemaCache{})
+		run.Eval(chk, j, c.Rule, c.M, c.N)
+		run.Label("huge-exponent")
+		if j {
+			run.Sample(chk, map[string]any{"rule": rule, "m": m, "n": n, "accepted": acc})
 		}
 	})
 }
